@@ -238,6 +238,16 @@ func CheckFields(input PDU) error { // nolint: gocyclo
 		}
 	}
 
+	// The sender is checked before the lenient byte size checks below, so that an
+	// event which also breaks a hard limit is never reported as persistable.
+	switch input.Version() {
+	case RoomVersionPseudoIDs:
+	default:
+		if err := checkID(string(input.SenderID()), "user", '@'); err != nil {
+			return err
+		}
+	}
+
 	_, persistable := lenientByteLimitRoomVersions[input.Version()]
 
 	// Byte size check: if these fail, then be lenient to avoid breaking rooms.
@@ -256,14 +266,6 @@ func CheckFields(input PDU) error { // nolint: gocyclo
 				Message:     fmt.Sprintf("gomatrixserverlib: state key is too long, length %d bytes > maximum %d bytes", l, maxIDLength),
 				Persistable: persistable,
 			}
-		}
-	}
-
-	switch input.Version() {
-	case RoomVersionPseudoIDs:
-	default:
-		if err := checkID(string(input.SenderID()), "user", '@'); err != nil {
-			return err
 		}
 	}
 
